@@ -85,6 +85,7 @@ const (
 	DecNil          // no decorator at all: a nil entry, or a conditional constructor whose condition is false
 	DecLibEwmaSpeed // decor.EwmaSpeed(unit, fmt, age): the library's own moving average (age = DecSpec.Age)
 	DecLibEwmaETA   // decor.EwmaETA(style, age)
+	DecInvCurrent   // decor.InvertedCurrent(unit, fmt): what is left, total - current
 )
 
 // Wrapper kinds.
@@ -95,6 +96,7 @@ const (
 	WrapMeta
 	WrapOnCompleteMeta
 	WrapOnAbortMeta
+	WrapOnCompleteMetaOrOnAbortMeta
 )
 
 // DecSpec describes one decorator.
@@ -115,6 +117,8 @@ type DecSpec struct {
 	Slow     int    `json:"slow,omitempty"`     // > 0: the Slow-th Decor call takes SlowNS of (simulated) time: a slow but healthy decorator
 	SlowNS   int64  `json:"slow_ns,omitempty"`
 	PreInit  bool   `json:"pre_init,omitempty"` // the WC passed to the constructor is a copy of one shared, already initialised style value
+	StartOff int64  `json:"start_off,omitempty"` // > 0: Elapsed / AverageSpeed / AverageETA are built by their New... constructors with a start time this many ns in the past (a resumed task)
+	TSafe    bool   `json:"tsafe,omitempty"`     // the recording average is handed over inside decor.NewThreadSafeMovingAverage
 	ShutGet  bool   `json:"shut_get,omitempty"` // a shutdown listener that asks its own bar for its state from OnShutdown ("aborted at 42/100")
 }
 
